@@ -5,7 +5,7 @@
    traversed_bytes/traversed_chars, the comment-leader line loops, the ignore markers and the shebang line, Go directives, the
    Literate Haskell masker, the git-commit cut).  WHICH nodes/events are prose is decided by third-party parsers and is reached by
    the constructed-ground-truth search of harness/src/bin/c04.rs, not by these theorems. *)
-Require Import Base Mask MaskProofs MaskFrontends Tables_masks C04JavaDoc C04JavaDocProofs C04Typst C04TypstProofs Tables_typst.
+Require Import Base Mask MaskProofs MaskFrontends Tables_masks C04JavaDoc C04JavaDocProofs C04Typst C04TypstProofs Tables_typst C04MdGuardTable C04Findings.
 From Coq Require String.
 Import String.StringSyntax.
 Delimit Scope string_scope with string.
@@ -218,25 +218,34 @@ Check C04_md_empty_code_silent : forall lex ilt src bs rs stack tc,
   md_event_step lex ilt src bs rs stack tc (ECodeLike 0) = Ok ([], stack).
 Print Assumptions C04_md_empty_code_silent.
 
-(* ---- FC02c (REFUTED; found in phase 4 by C04's monitor md_event_before_cursor and independently by C02): with every range on char boundaries and every Text range ordered the loop of
-   Markdown::parse still panics — concrete witness: pulldown-cmark's event stream of `[[a|]]river stone $$$$` (the replayed
-   Text("river stone ") behind the wikilink is not skipped by the guard because the empty `$$$$` moved the cursor without
-   pushing a token, and `source[tc .. tc + 12]` ends behind the file).  Replayed on the implementation: corpus/C04/edge.json,
-   known finding FC02c (fragments FC02c-C04-panic and FC02c-C04-order), fixes/FC02c-markdown-backward-events.diff. *)
-Theorem C04_md_loop_total_refuted :
-  exists (lex : text -> list tok) ilt src evs,
-    Forall valid_char src /\
-    Forall (fun e => is_boundary (encode src) (snd e) = true) evs /\
-    md_text_ranges_ok (encode src) evs /\
-    md_loop lex ilt src (encode src) evs 0 0 0 None [] = Panic PIndex.
-Proof. exact md_loop_total_refuted. Qed.
-Check C04_md_loop_total_refuted :
-  exists (lex : text -> list tok) ilt src evs,
-    Forall valid_char src /\
-    Forall (fun e => is_boundary (encode src) (snd e) = true) evs /\
-    md_text_ranges_ok (encode src) evs /\
-    md_loop lex ilt src (encode src) evs 0 0 0 None [] = Panic PIndex.
-Print Assumptions C04_md_loop_total_refuted.
+(* ---- totality of the Markdown loop (FC02c FIXED by b736ef8; this was C04_md_loop_total_refuted): with every range
+   start on a char boundary and every Text range ordered and ending on a char boundary (pulldown-cmark's contract,
+   monitored: md_event_off_char_boundary, md_text_range_off_char_boundary) the whole loop of Markdown::parse never
+   panics, for any lexer, from any consistent cursor state.  History: Example fc02c_replayed_event_skipped
+   (Proofs/MaskFrontends.v) computes the new behaviour on the old witness `[[a|]]river stone $$$$` and the old slice panic. *)
+Theorem C04_md_loop_total : forall lex ilt (src : text), Forall valid_char src ->
+  forall evs tb tc cu lastend stack,
+  tc = char_index (encode src) tb -> is_boundary (encode src) tb = true ->
+  Forall (fun e => is_boundary (encode src) (snd e) = true) evs ->
+  md_text_ranges_ok (encode src) evs ->
+  exists toks, md_loop lex ilt src (encode src) evs tb tc cu lastend stack = Ok toks.
+Proof. exact md_loop_total. Qed.
+Check C04_md_loop_total : forall lex ilt (src : text), Forall valid_char src ->
+  forall evs tb tc cu lastend stack,
+  tc = char_index (encode src) tb -> is_boundary (encode src) tb = true ->
+  Forall (fun e => is_boundary (encode src) (snd e) = true) evs ->
+  md_text_ranges_ok (encode src) evs ->
+  exists toks, md_loop lex ilt src (encode src) evs tb tc cu lastend stack = Ok toks.
+Print Assumptions C04_md_loop_total.
+
+(* ---- the guarded event kinds of the model = the list regenerated from the guard in markdown.rs (masks.py raises when
+   the guard, the cursor advance, covered_until or the empty-body skip change shape) *)
+Theorem C04_md_guard_table : (forall ev, md_is_leaf ev = md_names_guarded (md_event_names ev)) /\
+  List.length md_guarded_events = 8 /\ md_guard_has_behind_cursor = true.
+Proof. exact md_guard_table. Qed.
+Check C04_md_guard_table : (forall ev, md_is_leaf ev = md_names_guarded (md_event_names ev)) /\
+  List.length md_guarded_events = 8 /\ md_guard_has_behind_cursor = true.
+Print Assumptions C04_md_guard_table.
 
 (* ---- a Text event yields Unlintable, nothing, or the lexer's tokens of exactly source[tc .. tc+n] shifted by tc *)
 Theorem C04_md_text_chunk : forall lex ilt src stack tc n out,
@@ -759,6 +768,16 @@ Example C04_md_nonvacuous :
   = Ok [mktok (mkspan 0 2) 5%N; mktok (mkspan 5 7) 5%N].
 Proof. cbv zeta. split; [cbn; lia|]. split; [repeat constructor|vm_compute; repeat split; reflexivity]. Qed.
 
+(* the premises of C04_md_loop_total hold on pulldown-cmark's stream of `[[a|]]river stone $$$$` (replayed events behind the wikilink) *)
+Example C04_md_loop_total_nonvacuous :
+  Forall valid_char fc02c_src /\
+  Forall (fun e => is_boundary (encode fc02c_src) (snd e) = true) fc02c_evs /\
+  md_text_ranges_ok (encode fc02c_src) fc02c_evs /\ length fc02c_evs = 10.
+Proof.
+  split; [repeat constructor; unfold valid_char; lia|]. split; [repeat constructor|].
+  split; [unfold md_text_ranges_ok, fc02c_evs; repeat constructor; cbn; lia|reflexivity].
+Qed.
+
 (* "/// river" and a two-line block through Unit with an inner parser returning its whole input *)
 Example C04_unit_nonvacuous :
   let inner := fun c : text => [mktok (mkspan 0 (length c)) 5%N] in
@@ -859,3 +878,84 @@ Example C04_typst_nonvacuous :
   typst_parse lex (encode src) [TNode (Some (4, 16)) [TTok None 2%N]] = Panic PUnwrap /\
   typst_parse lex (encode src) [TLeaf (Some (1, 3)) 2%N] = Panic PUnwrap.
 Proof. exact (conj (proj1 typst_translate_example) (conj (proj2 typst_translate_example) (conj eq_refl eq_refl))). Qed.
+
+(* ====================================================================================================== *)
+(* ---- the known findings as exact characterisations (phase 4): which inputs are affected ---- *)
+
+(* FC04h: the first character of a comment node reaches the prose parser iff it is neither a comment character (generated
+   table) nor whitespace.  tree-sitter-ruby's comment node of a block comment begins with `=begin`; `=` is no comment
+   character (Example below), so the delimiter line is lexed from its first character: exactly the nodes that begin
+   with a non-leader character are affected. *)
+Theorem C04_leader_kept_iff : forall (is_whitespace : N -> bool) (c : N) (rest : text) a,
+  without_initiators is_whitespace (c :: rest) = Ok a ->
+  (sstart a = 0 <-> leader_char is_whitespace c = false).
+Proof. exact leader_kept_iff. Qed.
+Check C04_leader_kept_iff : forall (is_whitespace : N -> bool) (c : N) (rest : text) a,
+  without_initiators is_whitespace (c :: rest) = Ok a ->
+  (sstart a = 0 <-> leader_char is_whitespace c = false).
+Print Assumptions C04_leader_kept_iff.
+
+(* FC04d, first half: a non-empty span of without_initiators begins with a character that is neither whitespace nor a
+   comment character: Unit / JsDoc (one such span per line, C04_unit_line_offsets) never hand the inner parser a line
+   that begins with indentation *)
+Theorem C04_line_span_starts_clean : forall (is_whitespace : N -> bool) (line : text) a,
+  without_initiators is_whitespace line = Ok a -> sstart a < send a ->
+  exists c, nth_error line (sstart a) = Some c /\ leader_char is_whitespace c = false.
+Proof. exact without_initiators_first_clean. Qed.
+Check C04_line_span_starts_clean : forall (is_whitespace : N -> bool) (line : text) a,
+  without_initiators is_whitespace line = Ok a -> sstart a < send a ->
+  exists c, nth_error line (sstart a) = Some c /\ leader_char is_whitespace c = false.
+Print Assumptions C04_line_span_starts_clean.
+
+(* FC04d, second half: Go (no directive) makes ONE inner call on the whole block between the initiators, every interior
+   character — newlines, the leaders and the indentation of the following lines — verbatim.  The affected class is
+   therefore exactly: merged Go comment blocks whose text between the initiators contains a line the inner Markdown
+   parser reads as indented code (pulldown-cmark: tab / 4 spaces after a blank line) — the harness classifier
+   prose_missed_go_indented_line tests that on the file's own text. *)
+Theorem C04_go_block_verbatim : forall (is_whitespace : N -> bool) (inner : text -> list tok) (src : text),
+  exists actual, without_initiators is_whitespace src = Ok actual /\
+    (starts_with GO_DIRECTIVE (slice src (sstart actual) (send actual)) = false ->
+     go_parse is_whitespace inner src = Ok (map (tpush (sstart actual)) (inner (slice src (sstart actual) (send actual)))) /\
+     forall i, i < send actual - sstart actual ->
+       nth_error (slice src (sstart actual) (send actual)) i = nth_error src (sstart actual + i)).
+Proof. exact go_block_verbatim. Qed.
+Check C04_go_block_verbatim : forall (is_whitespace : N -> bool) (inner : text -> list tok) (src : text),
+  exists actual, without_initiators is_whitespace src = Ok actual /\
+    (starts_with GO_DIRECTIVE (slice src (sstart actual) (send actual)) = false ->
+     go_parse is_whitespace inner src = Ok (map (tpush (sstart actual)) (inner (slice src (sstart actual) (send actual)))) /\
+     forall i, i < send actual - sstart actual ->
+       nth_error (slice src (sstart actual) (send actual)) i = nth_error src (sstart actual + i)).
+Print Assumptions C04_go_block_verbatim.
+
+(* FC04e: the Typst translation depends on the prose lexer ONLY through typst_lexed n = the texts of the Text nodes and
+   the raw text between the quotes of the Str nodes reached through ranged ancestors; a Str node (a string literal,
+   also in code) is always in that list and its lexer tokens are in the output at +1: the affected class is exactly the
+   Str nodes. *)
+Theorem C04_typst_lexer_inputs_exact : forall bs (lex1 lex2 : text -> list tok) n,
+  (forall t, In t (typst_lexed n) -> lex1 t = lex2 t) -> tr_spec lex1 bs n = tr_spec lex2 bs n.
+Proof. exact typst_lexer_inputs_exact. Qed.
+Check C04_typst_lexer_inputs_exact : forall bs (lex1 lex2 : text -> list tok) n,
+  (forall t, In t (typst_lexed n) -> lex1 t = lex2 t) -> tr_spec lex1 bs n = tr_spec lex2 bs n.
+Print Assumptions C04_typst_lexer_inputs_exact.
+
+Theorem C04_typst_str_is_lexed : forall bs (lex : text -> list tok) a b raw,
+  typst_lexed (TStr (Some (a, b)) raw) = [decode (slice raw 1 (length raw - 1))] /\
+  tr_spec lex bs (TStr (Some (a, b)) raw) = map (tpush (char_index bs a + 1)) (lex (decode (slice raw 1 (length raw - 1)))).
+Proof. exact typst_str_is_lexed. Qed.
+Check C04_typst_str_is_lexed : forall bs (lex : text -> list tok) a b raw,
+  typst_lexed (TStr (Some (a, b)) raw) = [decode (slice raw 1 (length raw - 1))] /\
+  tr_spec lex bs (TStr (Some (a, b)) raw) = map (tpush (char_index bs a + 1)) (lex (decode (slice raw 1 (length raw - 1)))).
+Print Assumptions C04_typst_str_is_lexed.
+
+(* non-vacuity: `=begin\nriver\n=end` keeps its first character (`=` is not in the generated table); the Go block
+   `// a\n\n\t// b` reaches the inner parser as `a\n\n\t// b` — tab and leader of the third line included —; a tree
+   `#let x = "ab"` (a Str node under a ranged node) hands exactly `ab` to the lexer *)
+Example C04_findings_nonvacuous :
+  let ws := fun c => ((c =? 32) || (c =? 10) || (c =? 9))%N in
+  let whole := fun c : text => [mktok (mkspan 0 (length c)) 5%N] in
+  existsb (N.eqb 61) comment_characters = false /\
+  without_initiators ws [61;98;101;103;105;110;10;114;105;118;101;114;10;61;101;110;100]%N = Ok (mkspan 0 17) /\
+  go_parse ws whole [47;47;32;97;10;10;9;47;47;32;98]%N = Ok [mktok (mkspan 3 11) 5%N] /\
+  slice [47;47;32;97;10;10;9;47;47;32;98]%N 3 11 = [97;10;10;9;47;47;32;98]%N /\
+  typst_lexed (TNode (Some (0, 13)) [TTok (Some (1, 4)) 2%N; TStr (Some (9, 13)) [34;97;98;34]%N]) = [[97;98]%N].
+Proof. cbv zeta. repeat split; vm_compute; reflexivity. Qed.
